@@ -57,9 +57,15 @@ def node_level(ck, tier):
                 with simnet.Net(seed=rng.getrandbits(30), t0=main[-1].view.time + 5000) as net:
                     sn = nodeharness.SingleNode(net, chaingen.impl_state_from(main), [m.block for m in main[1:]], npeers=2)
                     sn.new_messages()
+                    net.clock.t += 400            # a quiet spell: nothing was written for more than five minutes
                     for blk_node in (sib, sib_child):
                         sn.deliver(rng.randrange(2), M.DataMessage(M.DATA_BLOCK, blk_node.block), irt=irt)
                     st = sn.observe()
+                    if sib.id in st['rows'] or sib.id in st['buffer']:
+                        ck.violation('refused-block-in-store', 'a competing block at the checkpointed height 4, refused by the running '
+                                     'node (%s), is in the block store%s: a restart loads it without validation'
+                                     % ('reply during a bulk download' if irt else 'relayed', '' if sib.id in st['rows'] else "'s write buffer"),
+                                     {'kind': 'node-checkpoint', 'in_response_to': irt, 'block': sib.block.serialize().hex(), 'stored': True})
                     ck.case(('node-checkpoint', irt), kind='node-level/%s/competing-block-at-checkpoint' % ('reply' if irt else 'relayed'))
                     if sib.id in st['blocks']:
                         ck.violation('checkpoint-not-enforced', 'a node whose chain reaches height %d accepts a competing block at the '
@@ -164,6 +170,42 @@ def run(tier, seed):
                                  {'kind': 'genesis', 'state': label_})
         except Exception as e:
             ck.disagree('scenario out-of-order real blocks raised %r' % (e,), {})
+
+        # (a1') the recorded blocks keep their evidence on every platform the package has branches for: a child
+        #       interpreter in which sys.platform reports win32 / darwin before the package is imported recomputes the
+        #       genesis and first recorded block's evidence with the real scrypt
+        try:
+            import subprocess
+            import sys as _sys
+            code = (
+                "import sys, os, tempfile, hashlib, struct, json, logging, socket, selectors, sqlite3, threading, decimal\n"
+                "import datetime, random, traceback, typing, ipaddress, io, itertools, collections, argparse, time, pathlib\n"
+                "import urllib.request, multiprocessing, subprocess, shutil, binascii, copy\n"
+                "try:\n    import immutables, ecdsa, scrypt\nexcept Exception:\n    pass\n"
+                "os.chdir(tempfile.mkdtemp())\n"
+                "sys.platform = %r      # from here on the package sees that platform\n"
+                "sys.path.insert(0, %r)\n"
+                "from skepticoin.datatypes import Block\n"
+                "from skepticoin.genesis import genesis_block_data\n"
+                "from skepticoin.coinstate import CoinState\n"
+                "from skepticoin import consensus as C\n"
+                "g = Block.deserialize(genesis_block_data)\n"
+                "ok = C.construct_pow_evidence(CoinState.empty(), g.header.summary, 0, g.transactions) == g.header.pow_evidence\n"
+                "cs = CoinState.empty().add_block_no_validation(g)\n"
+                "d = os.path.join(%r, 'tests', 'testdata', 'chain')\n"
+                "b1 = Block.stream_deserialize(open(os.path.join(d, sorted(os.listdir(d))[0]), 'rb'))\n"
+                "ok = ok and C.construct_pow_evidence(cs, b1.header.summary, b1.height, b1.transactions) == b1.header.pow_evidence\n"
+                "print('EVIDENCE', ok)\n")
+            for plat in ('win32', 'darwin'):
+                cp = subprocess.run([_sys.executable, '-c', code % (plat, common.REPO, common.REPO)], stdout=subprocess.PIPE,
+                                    stderr=subprocess.STDOUT, text=True, timeout=300)
+                ck.case(('platform', plat), kind='real-evidence-on-platform/' + plat)
+                if 'EVIDENCE True' not in cp.stdout:
+                    ck.violation('real-block-rejected', 'with sys.platform = %s the evidence of the genesis / first recorded block does '
+                                 'not recompute (real scrypt): %s' % (plat, cp.stdout.strip().splitlines()[-1][:160] if cp.stdout.strip() else ''),
+                                 {'kind': 'platform', 'platform': plat})
+        except Exception as e:
+            ck.disagree('platform probe raised %r' % (e,), {})
 
         # (a2) the same real blocks arriving while a competing (longer) branch is the node's head
         try:
